@@ -4,13 +4,19 @@ C12 - listeners run by priority then registration order until propagation stops.
 A case is a history of operations on ONE fresh `EventDispatcher`:
 
   ["reg",  e, p, stops, k]   add_listener(EVENTS[e], listener k, p)   (p None: the default priority)
-  ["disp", e, ev]            dispatch(EVENTS[e], event)   ev: "none" (no event passed), "fresh", "stopped"
+  ["disp", e, ev]            dispatch(EVENTS[e], event)   ev: "none" (no event passed), "fresh", "stopped" (stock
+                             `Event`), or an object of a USER subclass of `Event` that implements the public stop
+                             protocol itself: "fwd" / "fwd-stopped" (stop_propagation / is_propagation_stopped
+                             forwarded to a wrapped event), "own" / "own-stopped" (the state kept under an attribute
+                             of the subclass), "lim:N" (is_propagation_stopped overridden only: stopped once N
+                             listeners have seen the event - every listener counts itself on it - or the inherited
+                             stop_propagation() was called)
   ["has",  e|None]           has_listeners(name or nothing)
   ["get",  e|None]           get_listeners(name or nothing)
   ["prio", e, k]             get_listener_priority(EVENTS[e], listener k)
 
 Listener k is a recording callable `(event, event_name, dispatcher)`; when `stops` it calls
-`event.stop_propagation()`.  With `"probe": true` the pure queries (has_listeners x 4,
+`event.stop_propagation()`; it reports its call to events that have a `note_call()`.  With `"probe": true` the pure queries (has_listeners x 4,
 get_listener_priority for both registering events x every listener + a stranger, and once for
 the third event) are appended to the history, so the exhaustive enumeration (which contains
 every prefix as a case of its own) observes the queries after every history without
@@ -44,7 +50,11 @@ LEVEL_TEXT = ("Proved in Lean for every operation history (no length bound): the
               "that keeps registration order among equal priorities. That the model is the code is established by "
               "running both on all histories up to a small length and on random histories up to length 40.")
 LEVEL_NOTE = ("Trusted: Lean kernel + propext/Quot.sound/Classical.choice, the hand-written model "
-              "(Model/Dispatcher.lean) whose fidelity is what the correspondence samples, the harness. Listeners that "
+              "(Model/Dispatcher.lean) whose fidelity is what the correspondence samples, the harness. Event objects of "
+              "user subclasses that implement the stop protocol themselves are part of the histories: for classes that "
+              "implement it faithfully (state forwarded to a wrapped event / kept under an own attribute) the model is "
+              "the stock flag (theorem custom_event_faithful says why), the class that reports itself stopped after N "
+              "calls is modelled (dispatchN, theorem dispatch_budget_spec). Listeners that "
               "raise, re-enter the dispatcher or are registered twice are outside the generated histories (the "
               "theorems cover double registration, the correspondence does not). That no callable is registered twice "
               "for one event - the hypothesis under which a dispatch calls each LISTENER once and get_listener_priority "
@@ -59,22 +69,28 @@ REQUIRED_THEOREMS = ["Clikit.Props.C12." + n for n in (
     "late_registration", "query_has_listeners", "query_get_listeners", "query_get_all_listeners",
     "query_get_priority", "query_get_priority_unique", "pure_queries", "specRun_acceptable",
     "run_eq_specRun", "cache_inv_total", "reg_once_decides", "dispatch_each_once_decided",
-    "query_get_priority_decided")]
+    "query_get_priority_decided", "custom_event_faithful", "dispatch_budget_spec", "dispatch_budget_zero",
+    "dispatch_budget_large")]
 RULE = ("histories over {register(2 events x 3 priorities x stops?), dispatch(3 events), get_listeners(3 events | none)} "
         "enumerated exhaustively: quick - every history up to length 4, and up to length 3 with dispatches of an "
         "already stopped event; thorough - every history up to length 4, every history of length 5 up to swapping "
         "the names of the two registering events, up to length 4 with already stopped events, and every history of "
-        "length 6 over one registering event; each followed by the pure queries (has_listeners x 4, "
+        "length 6 over one registering event; the event objects of these dispatches cycle through the stock Event "
+        "and two user subclasses implementing stop_propagation/is_propagation_stopped themselves (state forwarded to "
+        "a wrapped event, state under an own attribute), dispatch by dispatch; plus every history up to length 3 "
+        "(thorough 4) with a dispatch of a user event that reports itself stopped after 1 or 2 listener calls; "
+        "each followed by the pure queries (has_listeners x 4, "
         "get_listener_priority x 2 events x every listener and a stranger); plus seeded random histories up to "
         "length 40 over the full alphabet with queries interleaved, priorities drawn per case from a wider pool, "
-        "default-priority registrations and dispatch without an event object; a case is non-trivial when some "
+        "default-priority registrations, dispatch without an event object and with all the event classes above "
+        "(budgets 0..4); a case is non-trivial when some "
         "dispatch/get_listeners sees an event with >= 2 registrations; distinct = distinct history")
 TRUSTED_BASE = [
     "Lean 4.33 kernel; axioms propext, Classical.choice, Quot.sound only (audited per theorem on every run)",
     "lean/Clikit/Model/Dispatcher.lean: hand-written model of event_dispatcher.py/event.py (dict insertion order, "
     "_sorted cache, stable sort via List.mergeSort by the key regenerated from the source); its fidelity is sampled by the correspondence",
     "tools/genparts/c12.py: ast-based extraction of the sort key lambda and of the default priority (Gen/C12.lean)",
-    "harness/props/c12.py: recording listeners, canonicalisation (listener objects -> ids, get_listeners() dict compared as a mapping)",
+    "harness/props/c12.py: recording listeners, the user event classes (ForwardingEvent, OwnFlagEvent, BudgetEvent), canonicalisation (listener objects -> ids, get_listeners() dict compared as a mapping)",
     "CPython: dict insertion order, stability of sorted()",
 ]
 ASSUMPTIONS = [
@@ -82,6 +98,8 @@ ASSUMPTIONS = [
     "also cover a callable registered several times; the correspondence does not generate it; 'once per event' is "
     "decided by the model on every history - wf.reg_once - and compared with the history)",
     "event names and priorities matter only through equality resp. order (histories use 3 names and 3 priorities per case)",
+    "'stops propagation' is judged by the event's public protocol: propagation is stopped when "
+    "event.is_propagation_stopped() answers true (user event classes may override it and stop_propagation())",
     "a dispatch with an event whose propagation is already stopped must call nobody (reading of 'until propagation stops'; "
     "needed to tell 'check before the call' from 'check after the call')",
 ]
@@ -97,6 +115,23 @@ PRIO_POOL = [-100, -7, -3, -2, -1, 0, 1, 2, 3, 7, 100]
 #                     histories containing a dispatch of an already stopped event up to this length,
 #                     histories over the single-event alphabet up to this length)
 SCOPE = {"quick": (4, 0, 3, 0), "thorough": (4, 5, 4, 6)}
+# histories containing a dispatch of a budget event ("lim:1", "lim:2") up to this length
+SCOPE_LIM = {"quick": 3, "thorough": 4}
+# event objects: stock Event and user subclasses implementing the stop protocol themselves
+EV_FRESH = ["fresh", "fwd", "own"]
+EV_STOPPED = ["stopped", "fwd-stopped", "own-stopped"]
+LIMITS = [0, 1, 2, 3, 4]
+
+
+def ev_limit(ev):
+    """N of a budget event "lim:N", else None"""
+    if isinstance(ev, str) and ev.startswith("lim:"):
+        return int(ev[4:])
+    return None
+
+
+def ev_pre_stopped(ev):
+    return ev in EV_STOPPED or ev_limit(ev) == 0
 RANDOM = {"quick": 3000, "thorough": 40000}
 
 
@@ -117,12 +152,16 @@ def _alphabet(stopped, events=REG_EVENTS, disp_events=(0, 1, 2)):
     return a
 
 
-def _materialise(seq):
+def _materialise(seq, ctr=None):
+    """`ctr` (a one-element list): the dispatches cycle through the event classes, dispatch by dispatch"""
     ops, k = [], 0
     for o in seq:
         if o[0] == "reg":
             ops.append(["reg", o[1], o[2], o[3], k])
             k += 1
+        elif o[0] == "disp" and ctr is not None and o[2] in ("fresh", "stopped"):
+            ctr[0] += 1
+            ops.append(["disp", o[1], (EV_FRESH if o[2] == "fresh" else EV_STOPPED)[ctr[0] % 3]])
         else:
             ops.append(list(o))
     return {"ops": ops, "probe": True}
@@ -141,24 +180,41 @@ def _canonical(seq):
 
 def _exhaustive(tier):
     full, sym, stopped, single = SCOPE[tier]
+    ctr = [0]
     a = _alphabet(False)
     for n in range(0, full + 1):
         for seq in itertools.product(a, repeat=n):
-            yield _materialise(seq)
+            yield _materialise(seq, ctr)
+    # user events that report themselves stopped after 1 or 2 listener calls
+    lim = [o for o in a if o[0] == "reg"] + [("disp", e, "fresh") for e in REG_EVENTS] + \
+          [("disp", e, "lim:%d" % n) for e in REG_EVENTS for n in (1, 2)]
+    for n in range(1, SCOPE_LIM[tier] + 1):
+        for seq in itertools.product(lim, repeat=n):
+            if any(o[0] == "disp" and o[2] != "fresh" for o in seq):
+                yield _materialise(seq, ctr)
     for n in range(full + 1, sym + 1):
         for seq in itertools.product(a, repeat=n):
             if _canonical(seq):
-                yield _materialise(seq)
+                yield _materialise(seq, ctr)
     b = _alphabet(True)
     for n in range(1, stopped + 1):
         for seq in itertools.product(b, repeat=n):
             if any(o[0] == "disp" and o[2] == "stopped" for o in seq):
-                yield _materialise(seq)
+                yield _materialise(seq, ctr)
     # deeper, one registering event only (its dispatch, get_listeners by name and without)
     c = _alphabet(False, events=[0], disp_events=(0,))
     for n in range(max(full, sym) + 1, single + 1):
         for seq in itertools.product(c, repeat=n):
-            yield _materialise(seq)
+            yield _materialise(seq, ctr)
+
+
+def _random_event(rng):
+    r = rng.random()
+    if r < 0.5:
+        return rng.choice(["none", "fresh", "fresh", "stopped"])
+    if r < 0.8:
+        return rng.choice(["fwd", "fwd", "own", "own", "fwd-stopped", "own-stopped"])
+    return "lim:%d" % rng.choice(LIMITS)
 
 
 def _random_case(rng):
@@ -173,7 +229,7 @@ def _random_case(rng):
             ops.append(["reg", rng.choice(REG_EVENTS), p, rng.random() < p_stop, k])
             k += 1
         elif r < 0.65:
-            ops.append(["disp", rng.randrange(3), rng.choice(["none", "fresh", "fresh", "stopped"])])
+            ops.append(["disp", rng.randrange(3), _random_event(rng)])
         elif r < 0.78:
             ops.append(["get", rng.choice([0, 1, 2, None])])
         elif r < 0.86:
@@ -244,6 +300,85 @@ def _bound_mode(case):
     return zlib.crc32(repr(case).encode()) % 2 == 0
 
 
+_EVENT_CLASSES = None
+
+
+def event_classes():
+    """user subclasses of the public `Event` that implement the stop protocol themselves"""
+    global _EVENT_CLASSES
+    if _EVENT_CLASSES is None:
+        from clikit.api.event import Event
+
+        class ForwardingEvent(Event):
+            """wraps another event: the propagation state lives in the wrapped event"""
+
+            def __init__(self, inner):
+                super(ForwardingEvent, self).__init__()
+                self.inner = inner
+
+            def stop_propagation(self):
+                self.inner.stop_propagation()
+
+            def is_propagation_stopped(self):
+                return self.inner.is_propagation_stopped()
+
+        class OwnFlagEvent(Event):
+            """keeps the propagation state under an attribute of its own"""
+
+            def __init__(self):
+                super(OwnFlagEvent, self).__init__()
+                self.halted = False
+
+            def stop_propagation(self):
+                self.halted = True
+
+            def is_propagation_stopped(self):
+                return self.halted
+
+        class BudgetEvent(Event):
+            """needs no further listeners once `limit` of them have seen it (listeners report themselves with
+            note_call()); stop_propagation() is the inherited one"""
+
+            def __init__(self, limit):
+                super(BudgetEvent, self).__init__()
+                self.limit = limit
+                self.calls = 0
+
+            def note_call(self):
+                self.calls += 1
+
+            def is_propagation_stopped(self):
+                return self.calls >= self.limit or super(BudgetEvent, self).is_propagation_stopped()
+
+        _EVENT_CLASSES = (ForwardingEvent, OwnFlagEvent, BudgetEvent)
+    return _EVENT_CLASSES
+
+
+def make_event(ev):
+    from clikit.api.event import Event
+    Fwd, Own, Budget = event_classes()
+    n = ev_limit(ev)
+    if n is not None:
+        return Budget(n)
+    if ev in ("fresh", "stopped"):
+        e = Event()
+    elif ev in ("fwd", "fwd-stopped"):
+        e = Fwd(Event())
+    elif ev in ("own", "own-stopped"):
+        e = Own()
+    else:
+        raise RuntimeError("unknown event kind %r" % (ev,))
+    if ev.endswith("stopped"):
+        e.stop_propagation()
+    return e
+
+
+def _note(event):
+    note = getattr(event, "note_call", None)
+    if note is not None:
+        note()
+
+
 def run_impl(case):
     from clikit.api.event import Event, EventDispatcher
     d = EventDispatcher()
@@ -254,6 +389,7 @@ def run_impl(case):
     def make(k, stop):
         def listener(event, event_name, dispatcher):
             rec.append((k, event, event_name, dispatcher))
+            _note(event)
             if stop:
                 event.stop_propagation()
         listener.__name__ = "listener_%d" % k
@@ -269,6 +405,7 @@ def run_impl(case):
 
         def on(self, event, event_name, dispatcher):
             rec.append((self.k, event, event_name, dispatcher))
+            _note(event)
             if self.stop:
                 event.stop_propagation()
 
@@ -307,9 +444,7 @@ def run_impl(case):
                     ev = None
                     ret = d.dispatch(name)
                 else:
-                    ev = Event()
-                    if o[2] == "stopped":
-                        ev.stop_propagation()
+                    ev = make_event(o[2])
                     ret = d.dispatch(name, ev)
                 args_ok = (ev is None or ret is ev) and all(
                     c[1] is ret and c[2] == name and c[3] is d for c in rec)
@@ -369,7 +504,10 @@ def model_requests(case):
         if k == "reg":
             ops.append(["add", o[1], o[4], bool(o[3]), o[2]])      # priority null: the model uses the default
         elif k == "disp":
-            ops.append(["dispatch", o[1], o[2] == "stopped"])
+            if ev_limit(o[2]) is not None:
+                ops.append(["dispatchN", o[1], ev_limit(o[2])])
+            else:       # a class implementing the protocol faithfully is the stock flag (custom_event_faithful)
+                ops.append(["dispatch", o[1], o[2] in EV_STOPPED])
         elif k == "prio":
             if stops is None:
                 stops = _stops_of(case)
@@ -441,7 +579,7 @@ def oracle(case, obs):
             called, out_stopped, args_ok = out
             if not args_ok:
                 return "%s: a listener was not called with (the dispatched event, the event name, the dispatcher) or another event object was returned" % where
-            if o[2] == "stopped":
+            if ev_pre_stopped(o[2]):
                 if called:
                     return "%s: propagation was already stopped but %r were called" % (where, called)
                 if not out_stopped:
@@ -450,10 +588,15 @@ def oracle(case, obs):
             v = _check_order(called, r, where)
             if v:
                 return v
-            stoppers = [k for k in called if stops.get(k, False)]
+            # the call after which the event's protocol answers "stopped": the listener called
+            # stop_propagation(), or (budget event) it was the N-th listener to see the event
+            limit = ev_limit(o[2])
+            stoppers = [k for i, k in enumerate(called) if stops.get(k, False) or (limit is not None and i + 1 >= limit)]
             if stoppers and stoppers[0] != called[-1]:
-                return "%s: listener %d stopped propagation but %r were still called" % (
-                    where, stoppers[0], called[called.index(stoppers[0]) + 1:])
+                return "%s: propagation was stopped at listener %d (%s) but %r were still called" % (
+                    where, stoppers[0],
+                    "it called stop_propagation()" if stops.get(stoppers[0], False) else "the event's is_propagation_stopped() is true after %d calls" % limit,
+                    called[called.index(stoppers[0]) + 1:])
             missing = [k for k in r if k not in called]
             if stoppers:
                 last = called[-1]
@@ -464,7 +607,7 @@ def oracle(case, obs):
                 return "%s: nobody stopped propagation but listener(s) %r were not called" % (where, sorted(missing))
             if out_stopped != bool(stoppers):
                 return "%s: returned event stopped=%s, but %s" % (
-                    where, out_stopped, "listener %d stopped it" % stoppers[0] if stoppers else "no called listener stopped it")
+                    where, out_stopped, "propagation was stopped at listener %d" % stoppers[0] if stoppers else "nothing stopped it")
         elif kind == "has":
             want = any(regs[e] for e in regs) if o[1] is None else bool(regs[o[1]])
             if out is not want:
@@ -533,7 +676,10 @@ def bucket(case, obs):
         d = "some-dispatch-stopped"
     else:
         d = "dispatches-unstopped"
-    return "len=%s regs=%s %s" % (_lenb(len(case["ops"])), nreg if nreg < 4 else "4+", d)
+    evs = [o[2] for o in case["ops"] if o[0] == "disp"]
+    c = " budget-event" if any(ev_limit(x) is not None for x in evs) else (
+        " user-event" if any(x not in ("none", "fresh", "stopped") for x in evs) else "")
+    return "len=%s regs=%s %s%s" % (_lenb(len(case["ops"])), nreg if nreg < 4 else "4+", d, c)
 
 
 # --------------------------------------------------------------------------- minimisation / search
@@ -553,8 +699,9 @@ def shrink(case):
         if o[0] == "reg" and o[2] not in PRIOS:
             for p in PRIOS:
                 yield {"ops": ops[:i] + [[o[0], o[1], p, o[3], o[4]]] + ops[i + 1:], "probe": case.get("probe", False)}
-        if o[0] == "disp" and o[2] == "none":
-            yield {"ops": ops[:i] + [["disp", o[1], "fresh"]] + ops[i + 1:], "probe": case.get("probe", False)}
+        if o[0] == "disp" and o[2] not in ("fresh", "stopped"):
+            simpler = "stopped" if o[2] in EV_STOPPED else "fresh"
+            yield {"ops": ops[:i] + [["disp", o[1], simpler]] + ops[i + 1:], "probe": case.get("probe", False)}
 
 
 def neighbours(case):
@@ -570,6 +717,8 @@ def neighbours(case):
     for i in range(len(ops), -1, -1):
         for e in (0, 1, 2):
             yield mk(ops[:i] + [["disp", e, "fresh"]] + ops[i:])
+            yield mk(ops[:i] + [["disp", e, "fwd"]] + ops[i:])
+            yield mk(ops[:i] + [["disp", e, "own"]] + ops[i:])
             yield mk(ops[:i] + [["get", e]] + ops[i:])
         yield mk(ops[:i] + [["get", None]] + ops[i:])
     for i, o in enumerate(ops):
@@ -580,7 +729,7 @@ def neighbours(case):
                         if (e, p, s) != (o[1], o[2], o[3]):
                             yield mk(ops[:i] + [["reg", e, p, s, o[4]]] + ops[i + 1:])
         elif o[0] == "disp":
-            for ev in ("fresh", "stopped", "none"):
+            for ev in ("fresh", "stopped", "none", "fwd", "own", "fwd-stopped", "own-stopped", "lim:0", "lim:1", "lim:2"):
                 if ev != o[2]:
                     yield mk(ops[:i] + [["disp", o[1], ev]] + ops[i + 1:])
         yield mk(ops[:i] + ops[i + 1:])
